@@ -489,3 +489,110 @@ func fieldOfType(tn *types.TypeName, f *types.Var) bool {
 	}
 	return false
 }
+
+// ---- C12.R6 the slice decoder's pooled working array never is the destination's array ----
+
+// The slice decoder works in an array it owns (taken from, and returned to, a sync.Pool) and copies
+// the result into the destination at the end. The destination header is the *sliceHeader made from p
+// (in Decode/DecodeStream) or received by newSlice. Its data pointer may be compared and overwritten,
+// and the header may be the source or target of copySlice, but it must never flow into a working
+// header: that header goes back to the pool, and the next decode would write into the caller's slice.
+func c12r6(rc *core.RC) {
+	p := rc.P
+	n := 0
+	for _, fd := range p.Funcs("decoder") {
+		if fd.Body == nil || fd.Recv == nil {
+			continue
+		}
+		info := p.Info(fd)
+		recv := ""
+		if len(fd.Recv.List) > 0 {
+			recv = types.ExprString(fd.Recv.List[0].Type)
+		}
+		if recv != "*sliceDecoder" {
+			continue
+		}
+		fn := p.FuncName(fd)
+		dest := map[types.Object]bool{}
+		// *sliceHeader parameters
+		for _, f := range fd.Type.Params.List {
+			for _, nm := range f.Names {
+				if o := info.Defs[nm]; o != nil && strings.HasSuffix(o.Type().String(), "decoder.sliceHeader") && strings.HasPrefix(o.Type().String(), "*") {
+					dest[o] = true
+				}
+			}
+		}
+		// x := (*sliceHeader)(p)
+		var pobj types.Object
+		for _, f := range fd.Type.Params.List {
+			for _, nm := range f.Names {
+				if o := info.Defs[nm]; o != nil && o.Type().String() == "unsafe.Pointer" {
+					pobj = o
+				}
+			}
+		}
+		isDestExpr := func(e ast.Expr) bool {
+			e = core.Unparen(e)
+			if o := core.ObjOf(info, e); o != nil && dest[o] {
+				return true
+			}
+			if c, ok := e.(*ast.CallExpr); ok && len(c.Args) == 1 && pobj != nil && core.ObjOf(info, c.Args[0]) == pobj {
+				if tv, ok := info.Types[c.Fun]; ok && tv.IsType() && strings.HasSuffix(tv.Type.String(), "decoder.sliceHeader") {
+					return true
+				}
+			}
+			return false
+		}
+		ast.Inspect(fd.Body, func(m ast.Node) bool {
+			if as, ok := m.(*ast.AssignStmt); ok && len(as.Lhs) == len(as.Rhs) {
+				for i, r := range as.Rhs {
+					if isDestExpr(r) {
+						if o := core.ObjOf(info, as.Lhs[i]); o != nil {
+							dest[o] = true
+						}
+					}
+				}
+			}
+			return true
+		})
+		if len(dest) == 0 && pobj == nil {
+			continue
+		}
+		rc.Touch(fn)
+		// uses of <dest>.data as a value
+		var stack []ast.Node
+		ast.Inspect(fd.Body, func(m ast.Node) bool {
+			if m == nil {
+				stack = stack[:len(stack)-1]
+				return true
+			}
+			stack = append(stack, m)
+			sel, ok := m.(*ast.SelectorExpr)
+			if !ok || sel.Sel.Name != "data" || !isDestExpr(sel.X) {
+				return true
+			}
+			n++
+			parent := stack[len(stack)-2]
+			key := fmt.Sprintf("%s/destination-array-use#%d", fn, n)
+			switch par := parent.(type) {
+			case *ast.BinaryExpr:
+				if par.Op == token.EQL || par.Op == token.NEQ {
+					rc.OK(key, sel.Pos(), "compared only")
+					return true
+				}
+			case *ast.AssignStmt:
+				for _, l := range par.Lhs {
+					if l == ast.Expr(sel) {
+						rc.OK(key, sel.Pos(), "the destination's data pointer is overwritten")
+						return true
+					}
+				}
+			}
+			rc.Bad(key, sel.Pos(), "the destination's array (`%s`) is used as a value in `%s`: if it becomes the data of a working header it is returned to the decoder's pool, and a later decode writes into the caller's slice", core.Src(p.Fset, sel), core.Src(p.Fset, parent))
+			return true
+		})
+	}
+	if n < 4 {
+		rc.Unknown("decoder/sliceDecoder-destination-uses", token.NoPos, "found %d uses of the destination header's data field in sliceDecoder methods", n)
+	}
+}
